@@ -256,6 +256,9 @@ def fixed_sets():
     yield [r[0], corr_rule(0, ["r0"]), corr_rule(1, ["r0"], generate=True)]
     yield [r[0], r[1], corr_rule(0, ["r0", "missing"], "temporal")]
     yield [r[0], r[1], r[2], r[3]]
+    # names that differ only in blanks at the edges or in letter case are different names
+    yield [r[0], dict(r[1], name="r0 "), corr_rule(0, ["r0 "]), corr_rule(1, ["r0"], generate=True)]
+    yield [r[0], dict(r[1], name="R0"), dict(r[2], name=" r0"), corr_rule(0, ["R0", " r0"], "temporal")]
     hexname = dict(r[1], name="d41d8cd98f00b204e9800998ecf8427e")  # a name that parses as a UUID (but is no rule id)
     yield [r[0], hexname, corr_rule(0, ["d41d8cd98f00b204e9800998ecf8427e", "r0"], "temporal")]
     yield [r[0], r[1], corr_rule(0, ["r0", "r1"], "temporal", ext="norules"), r[2]]
